@@ -87,6 +87,12 @@ type Writer struct {
 	// catalog metadata stream when /EncryptMetadata=false is in effect.
 	refIsPlaintext map[Reference]bool
 
+	// encryptDict is the encryption dictionary which belongs to the key the
+	// file is encrypted with (nil if the file is not encrypted).  Close
+	// writes this value as the /Encrypt entry of the trailer, whatever has
+	// become of MetaInfo.Trailer in the meantime.
+	encryptDict Dict
+
 	// readEnc decrypts objects read back through Get.  Unlike w.w.enc it
 	// survives Close, so that a closed Writer still reads what it wrote.
 	readEnc *encryptInfo
@@ -197,6 +203,7 @@ func NewWriter(w io.Writer, v Version, opt *WriterOptions) (*Writer, error) {
 	}
 
 	var enc *encryptInfo
+	var encryptDict Dict
 	if useEncryption {
 		var cf *cryptFilter
 		var V int
@@ -238,11 +245,12 @@ func NewWriter(w io.Writer, v Version, opt *WriterOptions) (*Writer, error) {
 			efF:  cf,
 		}
 
-		encryptDict, err := enc.AsDict(v)
+		encryptDict, err = enc.AsDict(v)
 		if err != nil {
 			return nil, err
 		}
-		trailer["Encrypt"] = encryptDict
+		// the caller can see (and change) the trailer: it gets a copy
+		trailer["Encrypt"] = encryptDict.Clone()
 	}
 
 	bufferedW, ok := w.(writeFlusher)
@@ -288,6 +296,7 @@ func NewWriter(w io.Writer, v Version, opt *WriterOptions) (*Writer, error) {
 
 		documentMetadata: opt.DocumentMetadata,
 		refIsPlaintext:   map[Reference]bool{},
+		encryptDict:      encryptDict,
 		readEnc:          enc,
 	}
 	pdf.rm = NewResourceManager(pdf)
@@ -352,6 +361,16 @@ func (w *Writer) Close() (err error) {
 	}()
 
 	trailer := w.meta.Trailer.Clone()
+	if trailer == nil {
+		trailer = Dict{}
+	}
+	// the body of the file is encrypted if and only if this writer was
+	// created with a password: the /Encrypt entry must say the same
+	if w.encryptDict != nil {
+		trailer["Encrypt"] = w.encryptDict
+	} else {
+		delete(trailer, "Encrypt")
+	}
 
 	// the document metadata stream was committed during NewWriter and its
 	// reference cached on w.rm; Catalog.Encode picks it up via rm.Embed()
